@@ -35,6 +35,8 @@ type ldScenario struct {
 	Script     []verifkit.Step `json:"script"`
 	Refresh    int      `json:"refresh"`    // 1 = refresh configured (RefreshWriting 1h on a frozen clock)
 	BulkKeys   int      `json:"bulkkeys"`   // keys requested by a BulkGet caller: 1 = {1}, otherwise {1,2}
+	BulkRef    int      `json:"bulkref"`    // BulkRefresh callers over keys {1,2}
+	InLoader   []string `json:"inloader"`   // writes performed by the first single-key loader run itself, before it returns
 	HGate      int      `json:"hgate"`      // 1 = the atomic deletion handler is a gate ("h.atomic"): user code inside the table computation
 }
 
@@ -123,6 +125,7 @@ func runLoadScenario(sc ldScenario) ldResult {
 		res.Events = append(res.Events, e)
 		mu.Unlock()
 	}
+	var c *Cache[int, int]
 	clk := newManualClock(1_000_000_000)
 	o := &Options[int, int]{
 		MaximumSize: 10,
@@ -150,7 +153,7 @@ func runLoadScenario(sc ldScenario) ldResult {
 			fn()
 		}()
 	}
-	c := Must(o)
+	c = Must(o)
 	defer c.StopAllGoroutines()
 	if sc.Preload == 1 {
 		c.Set(1, 50)
@@ -173,12 +176,40 @@ func runLoadScenario(sc ldScenario) ldResult {
 		runs++
 		return runs
 	}
+	doWrite := func(kind string, wv int) {
+		note(ldEvent{T: "wcall", Op: kind, K: 1, V: wv})
+		switch kind {
+		case "set":
+			c.Set(1, wv)
+		case "setifabsent":
+			if _, ok := c.SetIfAbsent(1, wv); !ok {
+				kind = "setifabsent-noop"
+			}
+		case "invalidate":
+			c.Invalidate(1)
+		case "compute":
+			c.Compute(1, func(old int, found bool) (int, ComputeOp) { return wv, WriteOp })
+		case "computeinv":
+			c.Compute(1, func(old int, found bool) (int, ComputeOp) { return 0, InvalidateOp })
+		case "evict":
+			c.SetMaximum(0)
+			c.SetMaximum(10)
+		case "invalidateAll":
+			c.InvalidateAll()
+		}
+		note(ldEvent{T: "wret", Op: kind, K: 1, V: wv})
+	}
 	single := func(fn string) func(ctx context.Context, k int) (int, error) {
 		return func(ctx context.Context, k int) (int, error) {
 			id := newRun()
 			oc := pickOutcome()
 			note(ldEvent{T: "ldenter", Op: fn, K: k, Run: id})
 			s.Point("ld.enter", uint64(id))
+			if id == 1 {
+				for i, kind := range sc.InLoader {
+					doWrite(kind, 600+i)
+				}
+			}
 			s.Point("ld.exit", uint64(id))
 			v := 1000 + id
 			switch oc {
@@ -282,29 +313,30 @@ func runLoadScenario(sc ldScenario) ldResult {
 	for i, kind := range sc.Writers {
 		kind := kind
 		wv := 500 + i
-		s.Go("w"+strconv.Itoa(i+1), func() {
-			note(ldEvent{T: "wcall", Op: kind, K: 1, V: wv})
-			switch kind {
-			case "set":
-				c.Set(1, wv)
-			case "setifabsent":
-				if _, ok := c.SetIfAbsent(1, wv); !ok {
-					kind = "setifabsent-noop"
-				}
-			case "invalidate":
-				c.Invalidate(1)
-			case "compute":
-				c.Compute(1, func(old int, found bool) (int, ComputeOp) { return wv, WriteOp })
-			case "computeinv":
-				c.Compute(1, func(old int, found bool) (int, ComputeOp) { return 0, InvalidateOp })
-			case "evict":
-				c.SetMaximum(0)
-				c.SetMaximum(10)
-			case "invalidateAll":
-				c.InvalidateAll()
+		s.Go("w"+strconv.Itoa(i+1), func() { doWrite(kind, wv) })
+	}
+	for i := 1; i <= sc.BulkRef; i++ {
+		s.Go("q"+strconv.Itoa(i), guard("BulkRefresh", func() {
+			note(ldEvent{T: "call", Op: "BulkRefresh", K: 1})
+			ch := c.BulkRefresh(ctx, []int{1, 2}, bulk)
+			if ch == nil {
+				note(ldEvent{T: "ret", Op: "BulkRefresh", K: 1, Err: "nochan"})
+				return
 			}
-			note(ldEvent{T: "wret", Op: kind, K: 1, V: wv})
-		})
+			select {
+			case rs := <-ch:
+				seen := map[int]bool{}
+				for _, r := range rs {
+					seen[r.Key] = true
+					note(ldEvent{T: "ret", Op: "BulkRefresh", K: r.Key, V: r.Value, Err: errClassLd(r.Err)})
+				}
+				if !seen[1] {
+					note(ldEvent{T: "ret", Op: "BulkRefresh", K: 1, Err: "absent"})
+				}
+			case <-time.After(3 * time.Second):
+				note(ldEvent{T: "ret", Op: "BulkRefresh", K: 1, Err: "timeout"})
+			}
+		}))
 	}
 	res.Diag = s.Run()
 	if res.Diag != "" && res.Diag != "step limit" && !strings.HasPrefix(res.Diag, "panic") && s.WaitDone(5*time.Second) {
@@ -320,7 +352,7 @@ func runLoadScenario(sc ldScenario) ldResult {
 			case "call", "wcall":
 				nc++
 			case "ret", "wret":
-				if e.Op != "BulkGet" || e.K == 1 {
+				if (e.Op != "BulkGet" && e.Op != "BulkRefresh") || e.K == 1 {
 					nr++
 				}
 			}
